@@ -8,7 +8,7 @@ from hypothesis import strategies as st
 import pyttb as ttb
 
 from .. import gen, ref
-from ..core import cell
+from ..core import Abort, cell
 from . import _c08_helpers as H
 
 PROPERTY = "C08"
@@ -26,7 +26,18 @@ RULE = (
     "scaled by 1e+6 / 1e-6 (effective case read back from the object); weights include exact ties (equal magnitudes, "
     "duplicated columns); integer arguments are numpy.int64 one time in four where pyttb accepts them; component / "
     "mode index collections are lists, tuples, ndarrays (int64 / int32) and lists of numpy integers; normalize, "
-    "arrange, redistribute and extract are called a second time on the same object."
+    "arrange, redistribute and extract are called a second time on the same object.  Round 3: provenances 'balanced' "
+    "(extreme dynamic range: one factor column of one or all components times 2**-e, made up for by the weight or by "
+    "another factor's column, e in +-{30, 40, 60, 100, 400, 480}: the same array bit for bit, column norms 1e-9 .. "
+    "1e-145 under weights up to 1e+145 and the reverse), 'near' (near-special values: exactly unit columns with "
+    "relative noise 1e-14 .. 1e-5, weights kept / one up to that noise / times 1e-10) and 'scaled' by 1e-10 / 1e-13 / "
+    "1e+10 in every cell; cell extreme-range goes beyond the range where squares of entries are representable "
+    "(2**+-520 .. 2**+-900) with norms recomputed by scaling; cell history/forked keeps the operand of every operation "
+    "that returns a new Kruskal tensor (+, -, unary -/+, scalar *, mode permutation, extract, copy, tolist -> "
+    "ktensor, tovec -> from_vector) alive next to the result (up to four live objects), applies later in-place "
+    "re-parameterisations to any of them and judges every live object against its own expected array after every "
+    "step (objects that were not the target must be bit-identical); single-operation cells re-parameterise every "
+    "result in place and compare the operands bit for bit, and edit returned lists / vectors in place."
 )
 ASSUMPTIONS = [
     "denoted array = einsum('r,ar,br,...', weights, factors) on the public attributes (ref.den_kruskal)",
@@ -44,6 +55,13 @@ ASSUMPTIONS = [
     "already one) and arrange(permutation) (composition of the permutation) are required to be exact",
     "fixsigns(other) and score use attribute-preserving provenances only (their references are derived from the "
     "case's factor matrices)",
+    "several live objects: on the unchanged tree no operation that returns a new Kruskal tensor, a list of factor "
+    "matrices or a parameter vector shares memory with its operand (checked for + - unary scalar* permute extract "
+    "copy tolist tovec from_vector ttv), so an in-place operation on one object must leave every other bit-identical",
+    "extreme range: powers of two only, so that the badly balanced tensor denotes exactly the array of the well-scaled "
+    "case and the rounding bounds are unchanged; |e| <= 480 keeps sqrt(sum(x**2)) computable for |x| in [1e-3, 1e3] "
+    "and <= 6 rows; beyond that (cell extreme-range) the expected norms are computed after scaling by the largest "
+    "entry, and pyttb's 2-norm path is a known finding (C08-K3)",
 ]
 
 EPS = ref.EPS
@@ -562,6 +580,19 @@ def vector_roundtrip(ctx, case):
     with ctx.sut("ktensor.tovec-again"):
         v2 = K2.tovec(include_weights=flag)
     ctx.check(np.array_equal(v2, v), "vector-roundtrip-vector-stable")
+    # (round 3) the vectors stay the caller's: editing the one that was returned / the one that was handed over
+    # changes neither tensor
+    v3 = v.copy()
+    with ctx.sut("ktensor.from_vector-again"):
+        K3 = ttb.ktensor.from_vector(v3, tuple(case["shape"]), flag)
+    v3 *= 0.0
+    v2 += 1.0
+    v += 1.0
+    ctx.check(all(np.array_equal(a, b) for a, b in zip(K3.factor_matrices, F0)) and np.array_equal(K3.weights, w0 if flag else np.ones(R)),
+              "from_vector-result-does-not-alias-vector")
+    ctx.check(all(np.array_equal(a, b) for a, b in zip(K2.factor_matrices, F0)) and all(
+        np.array_equal(a, b) for a, b in zip(K.factor_matrices, F0)) and np.array_equal(K.weights, w0),
+        "tovec-result-does-not-alias-tensor")
 
 
 # --------------------------------------------------------------------------
@@ -614,6 +645,16 @@ def list_roundtrip(ctx, case):
         want = np.abs(w0) ** (1.0 / N)
         good = np.isnan(ratio) | (np.abs(ratio - want[None, :]) <= 1e-12 * np.maximum(want[None, :], 1e-300))
         ctx.check(bool(good.all()), "tolist-equal-share-of-weights", (ratio.tolist(), want.tolist()))
+    _tolist_list_is_callers(ctx, K, L)
+
+
+def _tolist_list_is_callers(ctx, K, L):
+    """(round 3) the list returned stays the caller's: editing its matrices in place does not reach the tensor"""
+    before = _attrs(K)
+    for f in L:
+        if f.flags.writeable:
+            f *= 3.0
+    ctx.check(_attrs_equal(K, before), "tolist-list-does-not-alias-tensor")
 
 
 # --------------------------------------------------------------------------
@@ -725,6 +766,7 @@ def algebra(ctx, case):
         else:
             ctx.check(ref.same_bound(got, expect, B + Bo, R + oc["rank"] + 2), "sum-den-is-sum-of-dens",
                       ref.diff_info(got, expect))
+        _result_independent(ctx, Z, [(K, w0, F0), (O, wo, Fo)])
         return
     if op in ("neg", "pos"):
         with ctx.sut("ktensor.__neg__" if op == "neg" else "ktensor.__pos__"):
@@ -735,6 +777,7 @@ def algebra(ctx, case):
         ctx.check(np.array_equal(Z.weights, -w0 if op == "neg" else w0), "unary-weights", Z.weights)
         ctx.check(ref.same_bound(ref.den(Z), expect, B, R + 2), "unary-den", ref.diff_info(ref.den(Z), expect))
         ctx.check(all(np.array_equal(a, b) for a, b in zip(Z.factor_matrices, F0)), "unary-factors-untouched")
+        _result_independent(ctx, Z, [(K, w0, F0)])
         return
     c = case["scalar"]
     sc = int(c) if case["scalar_kind"] in ("int", "zero") else (np.float64(c) if case["scalar_kind"] == "npfloat" else float(c))
@@ -749,6 +792,17 @@ def algebra(ctx, case):
         ctx.check(ref.same_exact(got, expect), "scalar-multiple-den", ref.diff_info(got, expect))
     else:
         ctx.check(ref.same_bound(got, expect, abs(float(c)) * B, R + 2), "scalar-multiple-den", ref.diff_info(got, expect))
+    _result_independent(ctx, Z, [(K, w0, F0)])
+
+
+def _result_independent(ctx, Z, operands):
+    """(round 3) the result is an object of its own: re-parameterising it in place leaves every operand bit-identical"""
+    with ctx.sut("ktensor.result-then-normalize-in-place"):
+        Z.normalize(weight_factor="all", normtype=1)
+        Z.fixsigns()
+    for X, w, F in operands:
+        ctx.check(np.array_equal(X.weights, w) and all(np.array_equal(a, b) for a, b in zip(X.factor_matrices, F)),
+                  "result-does-not-alias-operand")
 
 
 # --------------------------------------------------------------------------
@@ -991,3 +1045,289 @@ def history(ctx, case):
                   "history:observations-leave-object-unchanged", f"after {op}")
     if seen_absorb:
         ctx.label("weights-absorbed-somewhere")
+
+
+# --------------------------------------------------------------------------
+# (round 3) forked histories: several live objects
+# --------------------------------------------------------------------------
+# Every operation that returns a new Kruskal tensor (+, -, unary -, unary +, scalar *, mode permutation, extract, copy,
+# tolist -> ktensor, tovec -> from_vector) leaves its operand(s) alive next to the result; later steps re-parameterise
+# any one of the live objects in place (normalize / arrange / fixsigns / redistribute) or derive further objects from
+# it.  After every step every live object is judged against its *own* expected array, and every object that was not
+# the target of an in-place step must have bit-identical attributes.
+
+_INPLACE = ["normalize", "normalize", "arrange", "arrange-perm", "fixsigns", "redistribute"]
+_NEWOBJ = ["neg", "pos", "scale", "scale", "permute-modes", "extract-all", "copy", "tolist-mode", "roundtrip-vec", "add", "sub"]
+_MAX_LIVE = 4
+
+
+@st.composite
+def _forked_case(draw, tier):
+    c = draw(H.kt(tier, max_order=4, max_rank=3))
+    N = len(c["shape"])
+    live = [dict(R=c["rank"], shape=list(c["shape"]))]  # what the strategy needs to know about each live object
+    steps = []
+    for i in range(draw(st.sampled_from([2, 3, 3, 4, 4, 5, 6, 7]))):
+        on = draw(st.integers(0, len(live) - 1))
+        o = live[on]
+        R = o["R"]
+        # a new object first, then mostly in-place steps on one of the two
+        kind = draw(st.sampled_from(_NEWOBJ if i == 0 else _INPLACE + _INPLACE + _NEWOBJ))
+        s = dict(op=kind, on=on)
+        if kind == "normalize":
+            wf = draw(st.sampled_from(["none", "all"] + [str(k) for k in range(N)]))
+            s.update(wf=wf, sort=draw(st.booleans()), normtype=draw(st.sampled_from(["1", "2", "inf"])),
+                     mode=draw(st.sampled_from([None] + list(range(N)))) if wf == "none" else None)
+        elif kind == "arrange":
+            s.update(wf=draw(st.sampled_from([None] + list(range(N)))))
+        elif kind in ("arrange-perm", "extract-all"):
+            s.update(perm=list(draw(st.permutations(range(R)))))
+        elif kind == "redistribute":
+            s.update(mode=draw(st.integers(0, N - 1)))
+        elif kind == "scale":
+            s.update(c=draw(st.sampled_from([2.0, -3.0, 0.5, 4, 2.5, -1.0])), left=draw(st.booleans()))
+        elif kind == "permute-modes":
+            s.update(perm=list(draw(st.permutations(range(N)))))
+        elif kind == "tolist-mode":
+            s.update(mode=draw(st.sampled_from([None] + list(range(N)))))
+        elif kind == "roundtrip-vec":
+            s.update(include_weights=draw(st.booleans()))
+        elif kind in ("add", "sub"):
+            cand = [j for j, x in enumerate(live) if x["shape"] == o["shape"] and x["R"] + R <= 8]
+            if not cand:
+                s = dict(op="copy", on=on)
+                kind = "copy"
+            else:
+                s.update(other=draw(st.sampled_from(cand)))
+        if kind in _NEWOBJ:
+            new = dict(R=R, shape=list(o["shape"]))
+            if kind == "permute-modes":
+                new["shape"] = [o["shape"][j] for j in s["perm"]]
+            if kind in ("add", "sub"):
+                new["R"] = R + live[s["other"]]["R"]
+            s["fork"] = len(live) < _MAX_LIVE
+            if s["fork"]:
+                live.append(new)
+            else:
+                live[on] = new
+        steps.append(s)
+    c["steps"] = steps
+    return c
+
+
+def _attrs(K):
+    return np.array(K.weights, dtype=float), [np.array(f, dtype=float) for f in K.factor_matrices]
+
+
+def _attrs_equal(K, snap):
+    w, F = snap
+    return (isinstance(K.weights, np.ndarray) and np.array_equal(K.weights, w) and len(K.factor_matrices) == len(F)
+            and all(np.array_equal(a, b) for a, b in zip(K.factor_matrices, F)))
+
+
+@cell("C08/history/forked", strategy=_forked_case, quick=900, thorough=12000, shards=(2, 12))
+def history_forked(ctx, case):
+    K0, case = H.operand(ctx, case)
+    N = len(case["shape"])
+    objs = [dict(K=K0, A=H.den_case(case), B=H.bound_case(case), shape=list(case["shape"]), R=case["rank"], gen=0)]
+    ctx.label(*H.kt_labels(case), f"steps{len(case['steps'])}")
+    inplace_with_company = 0
+    for s in case["steps"]:
+        op, on = s["op"], s["on"]
+        o = objs[on]
+        K = o["K"]
+        snaps = [_attrs(x["K"]) for x in objs]
+        ctx.label("step-" + op)
+        new = None
+        with ctx.sut(f"forked.{op}"):
+            if op == "normalize":
+                wf = None if s["wf"] == "none" else ("all" if s["wf"] == "all" else int(s["wf"]))
+                K.normalize(weight_factor=wf, sort=s["sort"], normtype=H.NORMS[s["normtype"]], mode=s["mode"])
+            elif op == "arrange":
+                K.arrange(weight_factor=s["wf"])
+            elif op == "arrange-perm":
+                K.arrange(permutation=np.array(s["perm"]))
+            elif op == "fixsigns":
+                K.fixsigns()
+            elif op == "redistribute":
+                K.redistribute(s["mode"])
+            elif op == "neg":
+                new = -K
+            elif op == "pos":
+                new = +K
+            elif op == "scale":
+                new = s["c"] * K if s["left"] else K * s["c"]
+            elif op == "permute-modes":
+                new = K.permute(np.array(s["perm"]))
+            elif op == "extract-all":
+                new = K.extract(np.array(s["perm"]))
+            elif op == "copy":
+                new = K.copy()
+            elif op == "tolist-mode":
+                L = K.tolist() if s["mode"] is None else K.tolist(s["mode"])
+                new = ttb.ktensor(L)
+                for x in L:  # the list handed over stays the caller's
+                    if isinstance(x, np.ndarray) and x.flags.writeable:
+                        x *= 2.0
+            elif op == "roundtrip-vec":
+                v = K.tovec(include_weights=s["include_weights"])
+                new = ttb.ktensor.from_vector(v, tuple(o["shape"]), s["include_weights"])
+                if not s["include_weights"]:
+                    new.weights = K.weights.copy()
+                if isinstance(v, np.ndarray) and v.flags.writeable:
+                    v *= 0.0  # the vector stays the caller's
+            elif op in ("add", "sub"):
+                O = objs[s["other"]]["K"]
+                new = K + O if op == "add" else K - O
+        if new is not None:
+            ctx.require(isinstance(new, ttb.ktensor), f"forked:{op}:returns-ktensor", type(new).__name__)
+            ctx.check(all(new is not x["K"] for x in objs), f"forked:{op}:returns-new-object")
+            n = dict(K=new, A=o["A"], B=o["B"], shape=list(o["shape"]), R=o["R"], gen=o["gen"] + 1)
+            if op == "neg":
+                n["A"] = -o["A"]
+            elif op == "scale":
+                n["A"], n["B"] = o["A"] * float(s["c"]), o["B"] * abs(float(s["c"]))
+            elif op == "permute-modes":
+                n["A"], n["B"] = np.transpose(o["A"], s["perm"]), np.transpose(o["B"], s["perm"])
+                n["shape"] = [o["shape"][j] for j in s["perm"]]
+            elif op in ("add", "sub"):
+                o2 = objs[s["other"]]
+                n["A"] = o["A"] + o2["A"] if op == "add" else o["A"] - o2["A"]
+                n["B"] = o["B"] + o2["B"]
+                n["R"] = o["R"] + o2["R"]
+                n["gen"] = max(o["gen"], o2["gen"]) + 1
+            if s["fork"]:
+                objs.append(n)
+                touched = len(objs) - 1
+            else:
+                objs[on] = n
+                snaps[on] = None
+                touched = on
+        else:
+            o["gen"] += 1
+            touched = on
+            if len(objs) > 1:
+                inplace_with_company += 1
+        if len(objs) > 1:
+            ctx.label(f"live-{len(objs)}", ("in-place" if new is None else "new-object") + "-step-with-other-objects-alive")
+        # ---- every live object denotes its own array; objects that were not the target are untouched
+        for i, x in enumerate(objs):
+            who = "result" if i == touched else "other-object"
+            probs = H.kt_ok(x["K"], x["shape"], x["R"])
+            ctx.require(not probs, f"forked:{op}:{who}-wellformed", probs)
+            got = ref.den(x["K"])
+            n_terms = x["R"] * (N + 4) * (x["gen"] + 2)
+            ok = ctx.check(ref.same_bound(got, x["A"], x["B"], n_terms), f"forked:{op}:{who}-denotes-its-array",
+                           ref.diff_info(got, x["A"]))
+            if i != touched and i < len(snaps) and snaps[i] is not None:
+                ok = ctx.check(_attrs_equal(x["K"], snaps[i]), f"forked:{op}:{who}-attributes-untouched") and ok
+            if not ok:
+                raise Abort()  # (recorded above; later steps would only repeat the damage)
+    ctx.nt = inplace_with_company >= 1 and case["rank"] >= 2 and N >= 2
+
+
+# --------------------------------------------------------------------------
+# (round 3) extreme dynamic range beyond the point where squares of entries under- / overflow
+# --------------------------------------------------------------------------
+# The provenance 'balanced' (all cells) keeps |exponent| <= 480, where a 2-norm can still be computed as
+# sqrt(sum(x**2)).  This cell goes beyond (2**+-520, 2**+-600, 2**+-900): a valid, merely badly balanced Kruskal tensor
+# whose column entries are ~1e-157 .. 1e-271 (or 1e+157 .. 1e+271) with the weight or another factor making up for it.
+# Every product formed by a correct re-parameterisation stays far inside the float64 range (|entries| <= 1e3, order <= 3).
+
+_EXTREME_EXP = [520, 600, 900, -520, -600, -900]
+_EXTREME_CALLS = ["normalize", "normalize-sort", "normalize-wf", "normalize-all", "normalize-mode", "arrange", "arrange-wf",
+                  "tolist-mode", "redistribute", "fixsigns"]
+
+
+@st.composite
+def _extreme_case(draw, tier):
+    c = draw(H.kt(tier, min_order=2, max_order=3, max_rank=3, prov=None))
+    N, R = len(c["shape"]), c["rank"]
+    c["bal"] = draw(H.balanced_prov(N, R, _EXTREME_EXP))
+    c["call"] = draw(st.sampled_from(_EXTREME_CALLS))
+    c["normtype"] = draw(st.sampled_from(["1", "2", "inf"])) if c["call"].startswith("normalize") else "2"
+    c["m"] = draw(st.integers(0, N - 1))
+    return c
+
+
+def _extreme_uses_2norm(case):
+    return case.get("call") not in ("redistribute", "fixsigns") and case.get("normtype") == "2"
+
+
+def _scaled_colnorms(F, ord_):
+    """column norms that neither under- nor overflow (scale by the largest magnitude first)"""
+    F = np.asarray(F, dtype=float)
+    out = []
+    for r in range(F.shape[1]):
+        m = np.abs(F[:, r]).max() if F.shape[0] else 0.0
+        out.append(0.0 if m == 0 else m * np.linalg.norm(F[:, r] / m, ord=ord_))
+    return np.array(out)
+
+
+@cell("C08/extreme-range", strategy=_extreme_case, quick=400, thorough=4000, shards=(1, 8))
+def extreme_range(ctx, case):
+    F, w = H.fms_of(case), H.w_of(case)
+    N, R, m, call = len(case["shape"]), case["rank"], case["m"], case["call"]
+    A, B = H.den_case(case), H.bound_case(case)  # of the well-scaled tensor: the badly balanced one denotes the same array
+    F2, w2 = H.apply_balanced(F, w, case["bal"])
+    K = ttb.ktensor([f.copy() for f in F2], w2.copy())
+    ord_ = H.NORMS[case["normtype"]]
+    e = case["bal"]["e"]
+    ctx.nt = R >= 2
+    ctx.label(f"order{N}", f"rank{R}", "call-" + call, "norm-" + case["normtype"], f"2^{-e}",
+              "column-" + ("tiny" if e > 0 else "huge") + ("-vs-weight" if case["bal"]["k2"] is None else "-vs-factor"))
+    with ctx.sut("extreme." + call):
+        if call == "normalize":
+            K.normalize(normtype=ord_)
+        elif call == "normalize-sort":
+            K.normalize(sort=True, normtype=ord_)
+        elif call == "normalize-wf":
+            K.normalize(weight_factor=m, normtype=ord_)
+        elif call == "normalize-all":
+            K.normalize(weight_factor="all", normtype=ord_)
+        elif call == "normalize-mode":
+            K.normalize(mode=m, normtype=ord_)
+        elif call == "arrange":
+            K.arrange()
+        elif call == "arrange-wf":
+            K.arrange(weight_factor=m)
+        elif call == "tolist-mode":
+            K = ttb.ktensor(K.tolist(m))
+        elif call == "redistribute":
+            K.redistribute(m)
+        elif call == "fixsigns":
+            K.fixsigns()
+    _structure(ctx, K, case)
+    finite = bool(np.all(np.isfinite(K.weights))) and all(bool(np.all(np.isfinite(f))) for f in K.factor_matrices)
+    ctx.check(finite, "extreme-result-finite", K.weights)
+    if finite:
+        got = ref.den(K)
+        ctx.check(ref.same_bound(got, A, B, R * (N + 4)), "extreme-den-unchanged", ref.diff_info(got, A))
+    # the normal form, with norms computed so that they cannot under- or overflow
+    unit_modes = []
+    if call in ("normalize", "normalize-sort"):
+        unit_modes = list(range(N))
+    elif call in ("normalize-wf", "arrange-wf", "tolist-mode"):
+        unit_modes = [k for k in range(N) if k != m]
+    elif call == "normalize-mode":
+        unit_modes = [m]
+    elif call == "arrange":
+        unit_modes = list(range(N))
+    for k in unit_modes:
+        G = np.asarray(K.factor_matrices[k], dtype=float)
+        nrm = _scaled_colnorms(G, ord_)
+        zero = np.array([(G[:, r] == 0).all() for r in range(R)])
+        ctx.check(bool(((np.abs(nrm - 1) <= 64 * EPS * (G.shape[0] + 2)) | zero).all()), "extreme-unit-columns", (k, nrm))
+    if call in ("normalize", "normalize-sort", "arrange"):
+        # the weights are |w| times the column norms (in any order when sorted): no component may vanish
+        expect = np.abs(w2)
+        for k in range(N):
+            expect = expect * _scaled_colnorms(F2[k], ord_)
+        gotw, expw = np.sort(np.asarray(K.weights, dtype=float)), np.sort(expect)
+        ctx.check(np.allclose(gotw, expw, rtol=64 * EPS * (max(case["shape"]) + N + 2), atol=0),
+                  "extreme-weights-are-norm-products", (gotw, expw))
+    if call in ("normalize-wf", "normalize-all", "arrange-wf", "redistribute", "tolist-mode"):
+        ctx.check(bool((np.asarray(K.weights) == 1).all()), "extreme-absorbed-weights-all-one", K.weights)
+
+
+PREDICATES["extreme_uses_2norm"] = _extreme_uses_2norm
